@@ -387,6 +387,16 @@ def allControls (lists : List Str) : Nat → List Cells → Except Fail (List Ct
       | .error f => .error f
       | .ok rest => .ok (cs ++ rest)
 
+def allControlsN (lists : List Str) : List (Nat × Cells) → Except Fail (List Ctl)
+  | [] => .ok []
+  | (n, r) :: rs =>
+    match rowControls lists n r with
+    | .error f => .error f
+    | .ok cs =>
+      match allControlsN lists rs with
+      | .error f => .error f
+      | .ok rest => .ok (cs ++ rest)
+
 /-- a `trigger` cell must be one reference to a question row that has a body control
     (`Survey._is_usable_trigger`, `validate_references`); anything else is outside the fragment -/
 def triggersOk (lists : List Str) (rows : List Cells) : Bool :=
